@@ -96,12 +96,13 @@ def _cleanup_variable_name(name: ValueInfoProto | str) -> str:
     if name in kwlist:
         return f"r_{name}"
     first = name[0]
-    if not (first.isalpha() or (first == "_")):
+    if not first.isidentifier():
         name = f"__{name}"
 
     def rename_char(char):
         """Replace invalid character by underscore."""
-        return char if (char.isalnum() or (char == "_")) else "_"
+        # str.isalnum() also accepts characters (e.g. superscript digits) that cannot be part of an identifier.
+        return char if f"_{char}".isidentifier() else "_"
 
     return "".join([rename_char(c) for c in name])
 
